@@ -348,3 +348,8 @@ fn arbitrary_key(u: &mut Unstructured<'_>) -> Result<EcdhEsHkdf256PublicKey> {
     let y = arbitrary_bytes(u)?;
     Ok(EcdhEsHkdf256PublicKey { x, y })
 }
+
+// Verification hooks (contract proofs run by `cargo kani`; inert in every other build).
+#[cfg(kani)]
+#[path = "/verif/kani/arbitrary_proofs.rs"]
+mod verif_proofs;
